@@ -7,21 +7,37 @@ Three kinds of case:
   ``(B*, T, C*, D)``, mask ``(B*, T, C*)``, every batch axis of every tensor either full or 1,
   the sequence axis anywhere legal, named by a non-negative or a negative ``dim``).
 * ``multi``   ``MultiHeadedAttention`` around one of the three, all 16 bias-flag combinations,
-  batch size equal to / different from the head count.
+  batch size equal to / different from the head count, ``d_v`` / ``out_size`` passed or defaulted.
 * ``shape``   malformed calls (wrong ranks, wrong sizes, illegal ``dim``, shapes that do not
-  broadcast): the documented error class, never a value.
+  broadcast), every flavour: the documented error class, never a value.
 
-Correspondence: every element of the broadcast batch (query vector, list of keys, list of
-values, keep flags) goes to the Lean model (``attend`` / ``mhaForward``), which also evaluates
-the declarative spec (``attendSpec`` / ``mhaSpec``).  Scores of the dot / generalised flavours
-with integer / dyadic parameters are compared EXACTLY (rationals); weights and outputs within
-1e-5 (float32 vs. the driver's double ``exp``).
+Orthogonal options of ``single`` / ``multi`` cases: ``dtype`` (float32 / float64), memory ``layout``
+(contiguous / strided / transposed / explicitly expanded stride-0 views), ``alias`` (value IS key, the
+same tensor object), and ``mag`` — the LARGE-MAGNITUDE stream: integer valued queries, keys and
+parameters chosen so that every score is an exact integer of size 1e4 .. 1e5 (float32) or up to 1e13
+(float64), in four modes (``offset``: one large negative constant + an ordinary part; ``opposed``:
+query and keys in opposite directions; ``random``; ``extreme``: scores equal to -/+ finfo.max).  With
+such scores anything finite written into the masked positions (-1e4, -1e9, finfo.min, ...) is no
+longer negligible, whereas with ordinary scores exp underflows to exactly 0 and hides it.
 
-Property-only predicates on the implementation (no model needed): convexity bounds, weights
-(captured from ``torch.nn.functional.softmax``) are >= 0, sum to 1 and are exactly 0 on masked
-positions, blindness (masked keys/values replaced by random finite values), permutation
-invariance, implicit broadcasting == explicit expansion, multi-head == composition of the
-module's own projections with the wrapped single-head attention per head.
+Correspondence: (a) every element of the broadcast batch (query vector, list of keys, list of
+values, keep flags) goes to the Lean model (``attend`` / ``mhaForwardH``), which also evaluates
+the declarative spec (``attendSpec`` / ``mhaSpecH``); (b) the raw arguments of the call go to the
+model's tensor-level forward (``tensorApply``: ``check_input``, broadcasting as index arithmetic, the
+axis ``dim`` names) and the whole result tensor is compared.  The driver exponentiates with
+``exp(x - c)``, ``c`` the largest kept score (per head for multi-headed attention), as a
+max-subtracting softmax does; ``C20_shift_invariant`` / ``C20_multihead_shift`` prove that this is the
+same function.  Scores of the dot / generalised flavours with integer / dyadic parameters (and of the
+concat flavour in the large stream) are compared EXACTLY; weights and outputs within 1e-5.
+
+Property-only predicates on the implementation (no model needed): convexity bounds (single: the
+output; multi: every head's output, observed with a forward hook), weights (captured from
+``torch.nn.functional.softmax``, single and multi) are >= 0, sum to 1 and are exactly 0 on masked
+positions, blindness (masked keys/values replaced by random finite values: ordinary, 1e3, 1e30, and
+keys of +-finfo.max/2 whose scores overflow to inf / nan before they are masked), permutation
+invariance, implicit broadcasting == explicit expansion, no mask == all-true mask, the call does not
+depend on grad mode / training flag and does not write to its arguments, multi-head == composition of
+the module's own projections with the wrapped single-head attention per head, constructor defaults.
 """
 import contextlib
 import itertools
@@ -357,6 +373,8 @@ def make_multi(case, params):
                              d_v=None if case.get("dv_default") else params["dv"],
                              bias_WQ=f["wq"], bias_WK=f["wk"], bias_WV=f["wv"],
                              bias_WC=f["wc"]).to(dt)
+    if [m.d_v, m.out_size] != list(eff_dims(case)):
+        return m  # wrong defaults: reported by _run_multi (the parameters would not fit)
     inner2 = make_single(params["inner"], params["dq"], params["dk"], case["dim"], dt)
     m.single_head_attention.load_state_dict(inner2.state_dict())
     with torch.no_grad():
@@ -460,15 +478,26 @@ class C20(PropertyCheck):
     title = "Attention is a masked convex combination of values, blind to masked positions"
     rule = ("cases: (flavour x sequence-axis position x dim sign x broadcast pattern x mask kind) for the "
             "three single-head flavours; MultiHeadedAttention with all 16 bias-flag combinations x "
-            "batch==heads / batch!=heads x inner flavour; malformed-shape stream. Integer q/k/v, "
-            "int/dyadic/float parameters. non-trivial: >= 1 masked and >= 2 kept positions in some "
-            "element of the broadcast batch; distinct by the full case dict")
+            "batch==heads / batch!=heads x inner flavour x d_v/out_size passed or defaulted; malformed-shape "
+            "stream over all flavours; large-magnitude stream (flavour x {offset, opposed, random, extreme} x "
+            "{float32, float64}, single and multi-headed, exact integer scores 1e4..1e13 and +-finfo.max); "
+            "long sequences / long vectors (T <= 64, K <= 16); dtype, memory layout (strided, transposed, "
+            "expanded views), value-is-key aliasing varied in every stream. Integer q/k/v, int/dyadic/float "
+            "parameters. non-trivial: >= 1 masked and >= 2 kept positions in some element of the broadcast "
+            "batch; distinct by the full case dict")
     assumptions = [
         "float32 rounding is not modelled: weights/outputs compared within 1e-5 (relative to the value "
         "scale) against the driver's double-precision exp/tanh; scores with integer/dyadic parameters exactly",
         "torch broadcasting, movedim/reshape/broadcast_to used by the harness to split a call into elements",
         "torch.nn.functional.softmax patched (wrapped, result recorded) to observe the attention weights",
-        "masked contents are replaced by FINITE values only (0 * inf = nan in floats)",
+        "masked contents are replaced by FINITE values only (0 * inf = nan in floats); replaced VALUES stay "
+        "below 1e31 so that the value projection of multi-headed attention does not overflow",
+        "the driver's model exponentiates with exp(x - c), c = the largest kept score (per head): proved equal "
+        "to the plain model in exact arithmetic (C20_shift_invariant, C20_multihead_shift)",
+        "large-magnitude stream: inputs are restricted to integers small enough for every score to be exact "
+        "in the tensor dtype (concat: pre-activations are multiples of 32, tanh = -1/0/1 exactly); float16 / "
+        "bfloat16 are not exercised",
+        "driver glue: row-major addressing of the flat tensor data (flatIndex/mkTensor/allIdx in C20Main.lean)",
     ]
     quick_budget_s = 75
     thorough_budget_s = 700
@@ -481,7 +510,7 @@ class C20(PropertyCheck):
         if dtype == "float64" and rng.random() < 0.6:
             lo, hi = 30000, 1000000   # scores down to about -1e12 .. -1e13
         elif mode == "offset":
-            lo, hi = 100, 300         # scores about -1e4 .. -2e5
+            lo, hi = 150, 300         # scores about -2e4 .. -2e5 (still below -1e4 with scale 1/2)
         elif multi:
             lo, hi = 30, 50
         else:
@@ -497,13 +526,12 @@ class C20(PropertyCheck):
             layout = rng.random() < 0.2
         if layout:
             c["layout"] = rng.choice(["strided", "transposed", "expanded"])
-        if rng.random() < 0.1:
-            # value IS key (the class docstring's example passes the encoder output as both)
-            c["alias"] = True
-            c["D"], c["bv"], c["vT"] = c["K"], list(c["bk"]), True
         if mode is not None:
             c["mag"] = self._mag(rng, mode, dtype, c["kind"] == "multi")
             c["pmode"] = "int"
+            if c["flavour"] == "dot":
+                # |scale| <= 1 in the extreme mode: the scores must stay finite
+                c["scale"] = rng.choice(["1", "1/2", "-1"] + ([] if mode == "extreme" else ["2"]))
             if mode == "offset":
                 # room for an ordinary-size part next to the large common offset
                 if c["kind"] == "single":
@@ -512,8 +540,10 @@ class C20(PropertyCheck):
                 else:
                     c["dk"] = 2
                     c["dq"] = 2 if c["flavour"] == "dot" else c["dq"]
-            if c["flavour"] == "dot":
-                c["scale"] = rng.choice(["1", "1/2", "-1"] + ([] if mode == "extreme" else ["2"]))
+        if rng.random() < 0.1:
+            # value IS key (the class docstring's example passes the encoder output as both)
+            c["alias"] = True
+            c["D"], c["bv"], c["vT"] = c["K"], list(c["bk"]), True
         return c
 
     def _single(self, rng, flavour, n, nb, neg, tier, mask=None, pattern=None, wide=False):
@@ -995,15 +1025,25 @@ class C20(PropertyCheck):
         for n in range(qq.shape[0]):
             elems.append({"q": tl(qq[n]), "ks": tl2(kk[n]), "vs": tl2(vv[n]),
                           "mask": None if mm is None else [bool(x) for x in mm[n].tolist()]})
+        # the raw arguments of the call for the model's tensor-level forward (check_input, broadcasting,
+        # the axis `dim` names -- all inside the Lean model)
+        def tj(x):
+            return None if x is None else {"shape": list(x.shape), "data": (
+                [bool(b) for b in x.reshape(-1).tolist()] if x.dtype == torch.bool else tl(x))}
+        import torch
+        tens = {"dim": case["dim"], "Q": case["Q"], "K": case["K"],
+                "vsz": case["D"] if case["kind"] == "multi" else None,
+                "q": tj(q), "k": tj(k), "v": tj(v), "mask": tj(mask)}
         if case["kind"] == "single":
-            return {"op": "c20.single", "case": {"flavour": fl_json(params), "D": case["D"], "elems": elems}}
+            return {"op": "c20.single", "case": {"flavour": fl_json(params), "D": case["D"], "elems": elems,
+                                                 "tensor": tens}}
         pj = {key: params[key] for key in ("H", "dq", "dk", "dv")}
         for key in ("WQ", "WK", "WV", "WC"):
             pj[key] = [[frac_str(x) for x in r] for r in params[key]]
         for key in ("bQ", "bK", "bV", "bC"):
             pj[key] = [frac_str(x) for x in params[key]]
         pj["inner"] = fl_json(params["inner"])
-        return {"op": "c20.multi", "case": {"flags": case["flags"], "params": pj, "elems": elems}}
+        return {"op": "c20.multi", "case": {"flags": case["flags"], "params": pj, "elems": elems, "tensor": tens}}
 
     # ---------------------------------------------------------------- comparison
     _worst = {}
@@ -1057,6 +1097,20 @@ class C20(PropertyCheck):
         if len(impl["out"]) != len(elems):
             return out + [f"{len(impl['out'])} implementation elements vs {len(elems)} model elements"]
         vscale = 9.0
+        # tensor-level model: same shape, same entries (row-major)
+        tm = model.get("tensor")
+        if tm is not None:
+            if "error" in tm:
+                out.append(f"tensor-level model rejects the call ({tm['error']}); implementation returned a value")
+            elif list(tm["shape"]) != list(impl.get("shape")):
+                out.append(f"tensor-level model: shape {tm['shape']}, implementation {impl.get('shape')}")
+            else:
+                flat = [x for row in impl["out"] for x in row]
+                sc = vscale if case["kind"] == "single" else max(
+                    [1.0] + [abs(float(parse_frac(x))) for x in tm["data"] if not isinstance(parse_frac(x), str)])
+                d = self._vec_diff(flat, tm["data"], sc, what=f"tensor_out:{case['kind']}")
+                if d:
+                    out.append(f"tensor-level model: out impl={flat} model={tm['data']} ({d})")
         for n, (o, me) in enumerate(zip(impl["out"], elems)):
             sc = max([1.0] + [abs(float(parse_frac(x))) for x in me["out"] if not isinstance(parse_frac(x), str)])
             d = self._vec_diff(o, me["out"], sc if case["kind"] == "multi" else vscale,
@@ -1146,7 +1200,7 @@ class C20(PropertyCheck):
         bc = [n for n in ("bq", "bk", "bv", "bm") if 0 in case[n]]
         t.append("broadcast=" + ("+".join(bc) if bc else "none"))
         t.append("dtype=" + case.get("dtype", "float32"))
-        t.append("layout=" + (case.get("layout") or "contiguous"))
+        t.append("layout=" + (case.get("layout") or "contiguous") + ("+value_is_key" if case.get("alias") else ""))
         mag = case.get("mag")
         t.append("magnitude=" + ("ordinary" if not mag else mag["mode"] + (":1e4-1e5" if mag["M"] < 30000 else ":1e9-1e13")
                                  if mag["mode"] != "extreme" else "extreme:finfo.max"))
@@ -1168,6 +1222,10 @@ class C20(PropertyCheck):
             if key in case and case[key] > 1:
                 c = dict(case)
                 c[key] = case[key] - 1
+                if key == "D" and case.get("alias"):
+                    continue
+                if key == "K" and case.get("alias"):
+                    c["D"] = c["K"]
                 if key == "K" and case["flavour"] == "dot":
                     c["Q"] = c["K"]
                 if key == "Q" and case["flavour"] == "dot":
